@@ -24,9 +24,9 @@ Holds(cl, t) ==
   IF tr.raised # "" THEN cl # "C04.noraise"
   ELSE CASE cl = "C01.count" -> Paired(tr)
     [] cl = "C01.kind"   -> Each(tr, LAMBDA e, o : o.cls = e.kind)
-    [] cl = "C01.span"   -> Each(tr, LAMBDA e, o : o.s = e.s /\ o.e = e.e)
+    [] cl = "C01.span"   -> Each(tr, LAMBDA e, o : o.s = e.s /\ (IF e.e_upper THEN o.s < o.e /\ o.e <= e.e ELSE o.e = e.e))
     [] cl = "C01.groups" -> Each(tr, LAMBDA e, o : \A g \in DOMAIN e.groups : g \in DOMAIN o.groups /\ o.groups[g] = e.groups[g])
-    [] cl = "C01.pin"    -> Each(tr, LAMBDA e, o : o.pin_cite = e.pin)
+    [] cl = "C01.pin"    -> Each(tr, LAMBDA e, o : e.pin_any \/ o.pin_cite = e.pin)
     [] cl = "C01.year"   -> Each(tr, LAMBDA e, o : o.myear = e.year /\ (e.year # "" => o.year = e.yearnum))
     [] cl = "C01.court"  -> Each(tr, LAMBDA e, o : e.has_court => o.court \in SetOf(e.court))
     [] cl = "C01.defendant"  -> Each(tr, LAMBDA e, o : e.defendant # "" => o.defendant = e.defendant)
